@@ -3,7 +3,18 @@
 import json, os, re, glob
 root = os.path.join(os.path.dirname(os.path.abspath(__file__)), "..", "seeded")
 rows = []
-for d in sorted(glob.glob(os.path.join(root, "S*_C*"))):
+# benign (property-preserving) changes of round B1: no demonstration, the check must exit 0
+for d in sorted(glob.glob(os.path.join(root, "B*_C*"))):
+    mp = os.path.join(d, "meta.json")
+    sid = os.path.basename(d)
+    meta = json.load(open(mp)) if os.path.exists(mp) else {"id": sid, "property": sid.split("_")[1]}
+    meta["kind"] = "benign: a change that keeps the property (false-alarm test); expected check exit 0"
+    sl = os.path.join(d, "suite.log")
+    if os.path.exists(sl):
+        meta["suite_with_change"] = [l.strip() for l in open(sl) if l.startswith("test result")]
+    json.dump(meta, open(mp, "w"), indent=1)
+
+for d in sorted(glob.glob(os.path.join(root, "[SB]*_C*"))):
     mp = os.path.join(d, "meta.json")
     if not os.path.exists(mp):
         continue
